@@ -113,16 +113,18 @@ fn c01_missing_changes_kernel() {
     let expect_n: u64 = if last >= fm { (last - fm) as u64 + 1 } else { 0 };
     assert!(wp.available_changes_max() == fm - 1, "C01: available_changes_max = max(first-1, highest)");
     assert!(wp.missing_changes().count() as u64 == expect_n, "C01: number of missing changes");
-    let mut it = wp.missing_changes();
-    let mut k: i64 = 0;
-    while k < 3 {
-        let x = it.next();
-        if (k as u64) < expect_n {
-            assert!(x == Some(fm + k), "C01: missing changes are max(first,highest+1).. in increasing order");
-        } else {
-            assert!(x.is_none(), "C01: nothing beyond last_available is reported missing");
+    {
+        let mut it = wp.missing_changes();
+        let mut k: i64 = 0;
+        while k < 3 {
+            let x = it.next();
+            if (k as u64) < expect_n {
+                assert!(x == Some(fm + k), "C01: missing changes are max(first,highest+1).. in increasing order");
+            } else {
+                assert!(x.is_none(), "C01: nothing beyond last_available is reported missing");
+            }
+            k += 1;
         }
-        k += 1;
     }
     assert!(wp.is_historical_data_received() == (hb_count > 0 && expect_n == 0), "C04: historical data received iff a HEARTBEAT was seen and nothing is missing");
     kani::cover!(expect_n == 2 && first > highest + 1, "two missing after a lost-changes jump");
@@ -248,7 +250,7 @@ fn c01_reader_heartbeat_acknack() {
 /// `mode` 0 = the trigger of KF-C01-1 (sn_f is stale: no longer missing), asserts the full missing set;
 /// 1 = everything else (sn_f is missing or beyond last), asserts set, NACK_FRAG presence and content
 ///     except its count; 2 = the trigger of KF-C05-1 (a NACK_FRAG is emitted), asserts its count.
-fn acknack_with_fragment(mode: u8) {
+fn acknack_with_fragment(mode: u8) -> (u32, bool, bool) {
     let mut wp = s::new_proxy(ReliabilityKind::Reliable);
     let first0: i64 = kani::any();
     let highest: i64 = kani::any();
@@ -297,8 +299,6 @@ fn acknack_with_fragment(mode: u8) {
         // KF-C01-1: the stale fragment must not hide the missing changes from the writer
         assert!(a.u32(AN_NUMBITS) == n_missing && a.u32(AN_BITMAP) == top_bits(n_missing),
             "C01: ACKNACK names every missing sequence number although a stale fragment is buffered");
-        kani::cover!(n_missing == 2 && gapped, "two changes missing, fragment of a GAPped sample buffered");
-        kani::cover!(n_missing == 1 && !gapped, "one change missing, fragment of a lost (firstSN moved) sample buffered");
     } else {
         // missing changes strictly below the partially received sample are requested by ACKNACK,
         // the partially received sample itself by NACK_FRAG
@@ -319,14 +319,13 @@ fn acknack_with_fragment(mode: u8) {
                 // accepts a NACK_FRAG only if count > last received count (initially 0)
                 assert!(f.u32(NF_BITMAP + 4) as i32 > 0, "C05: the first NACK_FRAG of a reader carries a count greater than 0");
             }
-            kani::cover!(n_missing == 3, "partially received sample followed by two missing changes");
         } else {
             assert!(nsub == 2, "C05: no NACK_FRAG for a sample that is not (yet) announced");
-            kani::cover!(true, "fragment of a not yet announced sample");
         }
     }
     core::mem::forget(wp);
     core::mem::forget(c);
+    (n_missing, gapped, partial)
 }
 
 // @check props=C01 tier=quick known=KF-C01-1
@@ -342,7 +341,9 @@ fn acknack_with_fragment(mode: u8) {
 #[kani::stub(critical_section::acquire, super::support_cs::cs_acquire)]
 #[kani::stub(critical_section::release, super::support_cs::cs_release)]
 fn c01_acknack_with_fragment__known() {
-    acknack_with_fragment(0);
+    let (n_missing, gapped, _partial) = acknack_with_fragment(0);
+    kani::cover!(n_missing == 2 && gapped, "two changes missing, fragment of a GAPped sample buffered");
+    kani::cover!(n_missing == 1 && !gapped, "one change missing, fragment of a lost (firstSN moved) sample buffered");
 }
 
 // @check props=C01,C05 tier=quick
@@ -358,10 +359,12 @@ fn c01_acknack_with_fragment__known() {
 #[kani::stub(critical_section::acquire, super::support_cs::cs_acquire)]
 #[kani::stub(critical_section::release, super::support_cs::cs_release)]
 fn c01_acknack_with_fragment__rest() {
-    acknack_with_fragment(1);
+    let (n_missing, _gapped, partial) = acknack_with_fragment(1);
+    kani::cover!(partial && n_missing == 3, "partially received sample followed by two missing changes: NACK_FRAG emitted");
+    kani::cover!(!partial && n_missing == 0, "fragment of a not yet announced sample: no NACK_FRAG");
 }
 
-// @check props=C05,C01 tier=quick known=KF-C05-1
+// @check props=C05 tier=quick known=KF-C05-1
 // @desc NACK_FRAG duplicate filter (expected to FAIL, recorded finding KF-C05-1): the NACK_FRAG a reader emits for a partially received sample must carry a count greater than 0, because the writer (on_nack_frag_submessage_received) only accepts count > last_received_nack_frag_count, which starts at 0. RtpsWriterProxy never increments nack_frag_count: every NACK_FRAG carries 0 and is ignored by a dust-dds writer - a lost fragment of a reliable sample is never resent.
 // @bounds as c01_acknack_with_fragment__rest, restricted to the partially received sample being announced missing; unwind 6
 // @assume trigger of KF-C05-1: any NACK_FRAG emission (universal: the counter is never incremented); every other property of the emitted datagram is asserted by c01_acknack_with_fragment__rest
@@ -373,5 +376,6 @@ fn c01_acknack_with_fragment__rest() {
 #[kani::stub(critical_section::acquire, super::support_cs::cs_acquire)]
 #[kani::stub(critical_section::release, super::support_cs::cs_release)]
 fn c05_nackfrag_count__known() {
-    acknack_with_fragment(2);
+    let (n_missing, _gapped, partial) = acknack_with_fragment(2);
+    kani::cover!(partial && n_missing >= 1, "NACK_FRAG emitted");
 }
